@@ -65,41 +65,52 @@ Record fsenv := mkFs { f_ca : option (list Z); f_kp_ok : bool }.
 Inductive tlserr := ECaOpen | ECaParse | EKeyPair.
 Inductive sres := SErr (e : tlserr) | SOk (a : nat).
 
-(* connectionpool.go:50-97, statement by statement *)
+(* connectionpool.go:50-97, statement by statement (one definition per statement group) *)
+
+(* if sslOpts.Config == nil { tlsConfig = &tls.Config{InsecureSkipVerify: !sslOpts.EnableHostVerification} }
+   else { tlsConfig = sslOpts.Config.Clone() } *)
+Definition st_config (h : heap) (o : sslopts) : heap * nat :=
+  match o_config o with
+  | None => alloc_cfg h (mkCfg (negb (o_hv o)) [] None 0)
+  | Some ca => alloc_cfg h (get_cfg h ca)
+  end.
+
+(* if tlsConfig.InsecureSkipVerify && sslOpts.EnableHostVerification { tlsConfig.InsecureSkipVerify = false } *)
+Definition st_hv (h : heap) (a : nat) (o : sslopts) : heap :=
+  if c_insecure (get_cfg h a) && o_hv o then set_cfg h a (with_insecure (get_cfg h a) false) else h.
+
+(* if tlsConfig.RootCAs == nil { tlsConfig.RootCAs = x509.NewCertPool() } ; the pool then used *)
+Definition st_pool (h : heap) (a : nat) : heap * nat :=
+  match c_roots (get_cfg h a) with
+  | Some p => (h, p)
+  | None => let '(hp, p) := alloc_pool h in (set_cfg hp a (with_roots (get_cfg hp a) (Some p)), p)
+  end.
+
+(* if sslOpts.CaPath != "" { pool; ReadFile; AppendCertsFromPEM } *)
+Definition st_ca (h : heap) (a : nat) (o : sslopts) (f : fsenv) : heap * option tlserr :=
+  if o_ca_set o then
+    let '(h', p) := st_pool h a in
+    match f_ca f with
+    | None => (h', Some ECaOpen)
+    | Some [] => (h', Some ECaParse)
+    | Some certs => (set_pool h' p (add_certs (get_pool h' p) certs), None)
+    end
+  else (h, None).
+
+(* if sslOpts.CertPath != "" || sslOpts.KeyPath != "" { LoadX509KeyPair; append to Certificates } *)
+Definition st_kp (h : heap) (a : nat) (o : sslopts) (f : fsenv) : heap * sres :=
+  if o_cert_set o || o_key_set o then
+    if f_kp_ok f then (set_cfg h a (with_ncerts (get_cfg h a) (S (c_ncerts (get_cfg h a)))), SOk a)
+    else (h, SErr EKeyPair)
+  else (h, SOk a).
+
 Definition setup_tls (h : heap) (o : sslopts) (f : fsenv) : heap * sres :=
-  (* if sslOpts.Config == nil { &tls.Config{InsecureSkipVerify: !EnableHostVerification} } else { Clone() } *)
-  let '(h1, a) := match o_config o with
-                  | None => alloc_cfg h (mkCfg (negb (o_hv o)) [] None 0)
-                  | Some ca => alloc_cfg h (get_cfg h ca)
-                  end in
-  (* if tlsConfig.InsecureSkipVerify && EnableHostVerification { tlsConfig.InsecureSkipVerify = false } *)
-  let h2 := if c_insecure (get_cfg h1 a) && o_hv o
-            then set_cfg h1 a (with_insecure (get_cfg h1 a) false) else h1 in
-  (* if sslOpts.CaPath != "" { ... } *)
-  let '(h3, caerr) :=
-    if o_ca_set o then
-      let '(h2', p) := match c_roots (get_cfg h2 a) with
-                       | Some p => (h2, p)
-                       | None => let '(hp, p) := alloc_pool h2 in
-                                 (set_cfg hp a (with_roots (get_cfg hp a) (Some p)), p)
-                       end in
-      match f_ca f with
-      | None => (h2', Some ECaOpen)
-      | Some certs =>
-          match certs with
-          | [] => (h2', Some ECaParse)
-          | _ => (set_pool h2' p (add_certs (get_pool h2' p) certs), None)
-          end
-      end
-    else (h2, None) in
+  let '(h1, a) := st_config h o in
+  let h2 := st_hv h1 a o in
+  let '(h3, caerr) := st_ca h2 a o f in
   match caerr with
   | Some e => (h3, SErr e)
-  | None =>
-      (* if sslOpts.CertPath != "" || sslOpts.KeyPath != "" { LoadX509KeyPair; append } *)
-      if o_cert_set o || o_key_set o then
-        if f_kp_ok f then (set_cfg h3 a (with_ncerts (get_cfg h3 a) (S (c_ncerts (get_cfg h3 a)))), SOk a)
-        else (h3, SErr EKeyPair)
-      else (h3, SOk a)
+  | None => st_kp h3 a o f
   end.
 
 (* strings.LastIndex(addr, ":") : index of the last 58, None for -1 *)
